@@ -539,3 +539,50 @@ pub fn runner_for(seed: u64, tag: &str) -> TestRunner {
         TestRng::from_seed(RngAlgorithm::XorShift, &sd),
     )
 }
+
+/// Evaluates a matrix of (type, operation) cells on one generated operand set. Every cell is
+/// executed; the first failing cell (in canonical order) that is not a known finding becomes the
+/// failure of the case, known cells are counted and skipped.
+pub struct Cells<'a> {
+    pub known: &'a [String],
+    pub info: &'a mut CaseInfo,
+    pub first: Option<Fail>,
+    pub executed: u32,
+}
+
+impl<'a> Cells<'a> {
+    pub fn new(known: &'a [String], info: &'a mut CaseInfo) -> Cells<'a> {
+        Cells { known, info, first: None, executed: 0 }
+    }
+    /// `cell` = "<prop>:<backend>:<type>:<op>"
+    pub fn check<T: PartialEq + std::fmt::Debug>(&mut self, cell: &str, got: impl FnOnce() -> T, want: T) {
+        self.executed += 1;
+        let r = guard(got);
+        let (kind, detail) = match r {
+            Ok(g) => {
+                if g == want {
+                    return;
+                }
+                ("WRONG", format!("got {:x?} want {:x?}", g, want))
+            }
+            Err(p) => ("PANIC", format!("panicked: {}", p)),
+        };
+        let sig = format!("{}:{}", cell, kind);
+        if self.known.iter().any(|k| *k == sig) {
+            self.info.known_hits.push(sig);
+            return;
+        }
+        if self.first.is_none() {
+            let mut d = detail;
+            d.truncate(700);
+            self.first = Some(Fail::new(sig, d));
+        }
+    }
+    pub fn finish(self) -> Result<(), Fail> {
+        self.info.label(format!("cells executed per case: {}", self.executed));
+        match self.first {
+            Some(f) => Err(f),
+            None => Ok(()),
+        }
+    }
+}
